@@ -250,6 +250,8 @@ def main(argv):
                 kept.append((oid, msgs))
         violations = kept
 
+    restated = restated_contracts(groups, all_obl, all_failed, undecided)
+
     if replay_note and not replay_note.startswith("replays skipped"):
         undecided.append(replay_note)
 
@@ -293,6 +295,7 @@ def main(argv):
             "checker_cmd": " ; ".join(cmds),
             "backend": "verus 0.2026.09.13.671956e / z3 (bundled)",
             "trusted_base": sorted(set(trusted)) + prop.get("trusted_extra", []),
+            "restated_contracts": restated,
             "functions_under_contract": fns,
             "extraction_audit": [{k: a[k] for k in ("unit", "item", "tokens_before", "tokens_after", "counts")} for a in audits],
             "solver_time_ms": {k: v["ms"] for k, v in solver.items()},
@@ -322,6 +325,51 @@ def main(argv):
         for u in undecided:
             print("note (undecided part):", u)
     return 1 if (violations or replay_violations) else 0
+
+
+_SRC_TABLES = {}
+
+
+def restated_contracts(groups, all_obl, all_failed, undecided):
+    """shims/RESTATED.json: caller-side shims that restate a contract proved in another group.  For every entry whose shim belongs to one
+    of this property's groups: the source obligations must still exist in the text extracted from /repo now (their group is assembled,
+    not re-verified, unless it is one of this property's groups - then they must also be discharged in this run)."""
+    path = os.path.join(ROOT, "shims", "RESTATED.json")
+    if not os.path.exists(path):
+        return []
+    used = set()
+    for g in groups:
+        for ln in open(os.path.join(ROOT, "groups", g + ".grp")):
+            ln = ln.split()
+            if len(ln) == 2 and ln[0] == "shim":
+                used.add(ln[1])
+    out = []
+    for e in json.load(open(path))["entries"]:
+        if e["shim"] not in used:
+            continue
+        sg = e["source_group"]
+        if sg in groups:
+            table, mode = all_obl, "verified in this run"
+        else:
+            if sg not in _SRC_TABLES:
+                try:
+                    _SRC_TABLES[sg] = set(A.assemble(sg, canary=False)["linemap"]["obligations"])
+                except Exception as ex:      # the source group cannot be extracted from the current tree
+                    _SRC_TABLES[sg] = None
+                    undecided.append(f"restated contracts: source group {sg} cannot be assembled ({type(ex).__name__}: {ex})")
+            table, mode = _SRC_TABLES[sg], f"present in the text extracted now; verified by the checks that own group {sg}"
+        if table is None:
+            continue
+        for oid in e["restates"]:
+            if oid not in table:
+                undecided.append(f"restated contract {e['shim']}::{e['fn']} has lost its source obligation {oid} (group {sg})")
+                status = "LOST"
+            elif sg in groups and oid in all_failed:
+                status = "source obligation not discharged in this run"
+            else:
+                status = mode
+            out.append({"shim": f"{e['shim']}::{e['fn']}", "restates": oid, "source_group": sg, "status": status, "abstraction": e.get("abstraction", "")})
+    return out
 
 
 def structural_premise_holds(premise):
